@@ -61,6 +61,13 @@ func stratText(c StratCase) string {
 		}
 	default:
 		sb.WriteString("b(1).\n")
+		// styles statedfirst / stated / aggstated: every node predicate also has a stated fact (a unit clause),
+		// written before resp. after the rules
+		if c.Style == "statedfirst" {
+			for _, n := range c.Nodes {
+				fmt.Fprintf(&sb, "%s(7).\n", n)
+			}
+		}
 		for i, n := range c.Nodes {
 			fmt.Fprintf(&sb, "%s(X) :- b(X).\n", n)
 			for j, m := range c.Nodes {
@@ -68,12 +75,17 @@ func stratText(c StratCase) string {
 				case "pos":
 					fmt.Fprintf(&sb, "%s(X) :- b(X), %s(X).\n", n, m)
 				case "neg":
-					if c.Style == "agg" {
+					if strings.HasPrefix(c.Style, "agg") {
 						fmt.Fprintf(&sb, "%s(C) :- %s(X) |> do fn:group_by(), let C = fn:count().\n", n, m)
 					} else {
 						fmt.Fprintf(&sb, "%s(X) :- b(X), !%s(X).\n", n, m)
 					}
 				}
+			}
+		}
+		if c.Style == "stated" || c.Style == "aggstated" {
+			for _, n := range c.Nodes {
+				fmt.Fprintf(&sb, "%s(7).\n", n)
 			}
 		}
 	}
